@@ -3,7 +3,7 @@
  *   overlap_driver <seed> <mode> <out.ndjson>                                                  */
 #include "common.h"
 static vrng R;
-#define PADR 256
+#define PADR 704
 static unsigned char K[32], N[32], PK[32], SK[32], PK2[32], SK2[32], SPK[32], SSK[64];
 static void rec(const char *api, size_t len, long off, int equal, int outside, int ret_same) {
     fprintf(v_out, "{\"op\":\"overlap\",\"api\":\"%s\",\"len\":%zu,\"off\":%ld,\"equal\":%s,\"outside_ok\":%s,\"ret_same\":%s}\n", api, len, off, equal ? "true" : "false", outside ? "true" : "false", ret_same ? "true" : "false"); }
@@ -65,5 +65,16 @@ int main(int argc, char **argv) {
         AEBOTH(chacha, crypto_aead_chacha20poly1305, 16); AEBOTH(ietf, crypto_aead_chacha20poly1305_ietf, 16); AEBOTH(xchacha, crypto_aead_xchacha20poly1305_ietf, 16);
         AEBOTH(aegis128l, crypto_aead_aegis128l, 32); AEBOTH(aegis256, crypto_aead_aegis256, 32); if (crypto_aead_aes256gcm_is_available()) AEBOTH(gcm, crypto_aead_aes256gcm, 16);
     }
+    /* distances of the order of the widest vector batch (512 bytes for the AVX2 Salsa20 / ChaCha20 cores) with messages long
+     * enough to use it: the overlap handling must not assume a maximum stride */
+    { static const long OL[] = { 81, 96, 127, 128, 129, 191, 192, 193, 255, 256, 257, 300, 319, 320, 321, 383, 384, 385, 447, 448, 449, 511, 512, 513, 575, 576, 640 };
+      static const size_t LL[] = { 300, 544, 600, 1024, 1200 };
+      for (size_t li = 0; li < 5; li++) { size_t len = LL[li]; vrng_bytes(&R, msg, len);
+        for (size_t oi = 0; oi < sizeof OL / sizeof OL[0]; oi++) for (int sg = -1; sg <= 1; sg += 2) { long off = sg * OL[oi]; if (!full && (oi + li) % 2) continue;
+            run("secretbox_easy", op_sb_easy, len, len + 16, off, msg); run("secretbox_detached", op_sb_det, len, len, off, msg);
+            crypto_secretbox_easy(tmp, msg, len, N, K); run("secretbox_open_easy", op_sb_open, len + 16, len, off, tmp);
+            run("secretbox_xchacha_easy", op_sbx_easy, len, len + 16, off, msg); crypto_secretbox_xchacha20poly1305_easy(tmp, msg, len, N, K); run("secretbox_xchacha_open_easy", op_sbx_open, len + 16, len, off, tmp);
+            if (oi % 3 == 0) { run("box_easy", op_box_easy, len, len + 16, off, msg); crypto_box_easy(tmp, msg, len, N, PK2, SK); run("box_open_easy", op_box_open, len + 16, len, off, tmp);
+                run("sign", op_sign, len, len + 64, off, msg); unsigned long long sl; crypto_sign(tmp, &sl, msg, len, SSK); run("sign_open", op_sign_open, len + 64, len, off, tmp); } } } }
     v_close(); return 0;
 }
